@@ -13,14 +13,19 @@ UNIT = {"s": " ", "t": "\t", "f": "\f"}
 # (whitespace indices, shape indices, lines)
 CONFIGS = {
     # (whitespace indices, shape indices, lines, stride: every n-th generated layout is kept, shifted by VERIF_SEED)
-    "quick": [(set(range(1, 16)), {1, 2, 3, 4, 5, 6, 7}, 2, 2), ({1, 2, 5, 6, 9}, {1, 2, 3, 4, 5, 6, 7}, 3, 6), ({1, 2, 3, 4, 5, 6, 8}, {2, 8}, 4, 4)],
-    "thorough": [(set(range(1, 16)), {1, 2, 3, 4, 5, 6, 7}, 3, 1), ({1, 2, 4, 5, 6, 9}, {1, 2, 3, 4, 5, 6, 7}, 4, 1), ({1, 2, 3, 4, 5, 6, 8}, {2, 8, 5}, 5, 1)],
+    "quick": [(set(range(1, 16)), {1, 2, 3, 4, 5, 6, 7, 9}, 2, 2), ({1, 2, 5, 6, 9}, {1, 2, 3, 4, 5, 6, 7}, 3, 6), ({1, 2, 3, 4, 5, 6, 8}, {2, 8}, 4, 4),
+              ({1, 2, 4, 5, 6}, {2, 8, 9}, 4, 3),
+              # block-structured layouts only (a deeper line exactly after a header): long enough for a dedent to land on the
+              # column of an EARLIER, already closed block
+              ({1, 3, 4, 12}, {2, 8}, 7, 2, True), ({1, 2, 5, 6, 8}, {2, 8}, 6, 2, True)],
+    "thorough": [(set(range(1, 16)), {1, 2, 3, 4, 5, 6, 7, 9}, 3, 1), ({1, 2, 4, 5, 6}, {2, 8, 9, 5}, 5, 1),
+                 ({1, 3, 4, 12}, {2, 8, 5}, 8, 1, True), ({1, 2, 4, 5, 6, 8}, {2, 8}, 7, 1, True), ({1, 2, 4, 5, 6, 9}, {1, 2, 3, 4, 5, 6, 7}, 4, 1), ({1, 2, 3, 4, 5, 6, 8}, {2, 8, 5}, 5, 1)],
 }
 
 
 def table(run: Run) -> dict:
     f = os.path.join(run.dir, "indtable.ndjson")
-    run_tlc(run, "Indent", CFG % "ExportTable", env={"OUT": f}, name="indtable", consts={"MaxLines": 0, "UseWs": {1}, "UseShape": {1}}, workers=1)
+    run_tlc(run, "Indent", CFG % "ExportTable", env={"OUT": f}, name="indtable", consts={"MaxLines": 0, "UseWs": {1}, "UseShape": {1}, "Plausible": False}, workers=1)
     t = read_export(f)[0]
     os.remove(f)
     return t
@@ -33,9 +38,11 @@ def generate(run: Run, tier: str | None = None) -> list[dict]:
     out, seen = [], set()
     from .core import SEED
 
-    for ci, (usews, useshape, n, stride) in enumerate(CONFIGS[tier or run.tier]):
+    for ci, cfg in enumerate(CONFIGS[tier or run.tier]):
+        usews, useshape, n, stride = cfg[:4]
+        plausible = len(cfg) > 4 and cfg[4]
         f = os.path.join(run.dir, f"indent{ci}.ndjson")
-        run_tlc(run, "Indent", CFG % "Export", env={"OUT": f}, name=f"indent{ci}", consts={"MaxLines": n, "UseWs": usews, "UseShape": useshape})
+        run_tlc(run, "Indent", CFG % "Export", env={"OUT": f}, name=f"indent{ci}", consts={"MaxLines": n, "UseWs": usews, "UseShape": useshape, "Plausible": bool(plausible)})
         rows = sorted(read_export(f), key=lambda c: (c["lines"], c["eol"]))
         for c in rows[SEED % stride:: stride]:
             parts = [ws[w - 1] + shapes[sh - 1]["text"] for w, sh in c["lines"]]
